@@ -320,6 +320,13 @@ class ResponseHandler(BaseProtocol, DataQueue[tuple[RawResponseMessage, StreamRe
             set_exception(self._payload, exc)
 
     def data_received(self, data: bytes) -> None:
+        if data and self.idle:
+            # Nobody asked for these bytes. Even if the parser would skip them
+            # (a stray CRLF) the pooled connection is unusable, and they must
+            # not start the read timer on behalf of a future request.
+            self.close()
+            return
+
         # If no data, then we are resuming decompression. We haven't received
         # data from the socket, so we can avoid the reschedule overhead.
         if data:
